@@ -200,4 +200,30 @@ theorem getElem?_overwrite (buf : Bytes) (start : Nat) (bs : Bytes) (h : start +
 theorem overwrite_nil (buf : Bytes) (start : Nat) : overwrite buf start [] = buf := by
   simp [overwrite]
 
+/-- `.align`: the capacity test on the number `n - off` is the test `append` makes on the padding -/
+theorem step_align (st : State) (n : Nat) :
+    step st (.align n) =
+      match st.active with
+      | none => .error .inactive
+      | some s =>
+        if n = 0 ∨ top ≤ n then .error .range else
+        if (s.base + s.buf.length) % n = 0 then .ok st else append st (placeholder (n - (s.base + s.buf.length) % n)) := by
+  unfold step
+  cases hact : st.active with
+  | none => rfl
+  | some s =>
+    simp only
+    split
+    · rfl
+    · split
+      · rfl
+      · have hl : (placeholder (n - (s.base + s.buf.length) % n)).length = n - (s.base + s.buf.length) % n := by
+          simp [placeholder]
+        unfold append
+        rw [hact]
+        simp only [hl]
+        split
+        · rfl
+        · split <;> rfl
+
 end Trion.Layout
